@@ -95,15 +95,32 @@ fn scenario(out: &mut Out, rng: &mut Sm, bits: usize, exhaustive: bool) {
         ("ring:3".into(), Box::new(|| Box::new(RingBufferCache::new(3)) as Box<dyn IdpfCache>)),
         ("ring:7".into(), Box::new(|| Box::new(RingBufferCache::new(7)) as Box<dyn IdpfCache>)),
     ];
+    // the same prefix can be stored at any bit offset inside its backing words (a sub-slice of a
+    // longer bit vector, which `to_bitvec()` copies without re-aligning): results must not depend on it
+    let offsets: Vec<usize> = evals.iter().map(|_| if rng.below(3) == 0 { 1 + rng.below(9) as usize } else { 0 }).collect();
+    let input_at = |p: &[bool], off: usize| -> IdpfInput {
+        if off == 0 {
+            IdpfInput::from_bools(p)
+        } else {
+            let mut bv: bitvec::vec::BitVec<usize, bitvec::order::Lsb0> = bitvec::vec::BitVec::new();
+            for i in 0..off {
+                bv.push(i % 2 == 0);
+            }
+            for b in p {
+                bv.push(*b);
+            }
+            IdpfInput::from(bv[off..].to_bitvec())
+        }
+    };
     let mut per_kind: Vec<Vec<String>> = vec![];
     for (_, mk) in &kinds {
         let mut caches = [mk(), mk()];
         let mut res = vec![];
-        for (id, p) in &evals {
+        for (k, (id, p)) in evals.iter().enumerate() {
             let r = if *id < 2 {
-                idpf.eval(*id, &public, &keys[*id], &IdpfInput::from_bools(p), &ctx, &nonce, caches[*id].as_mut())
+                idpf.eval(*id, &public, &keys[*id], &input_at(p, offsets[k]), &ctx, &nonce, caches[*id].as_mut())
             } else {
-                idpf.eval(*id, &public, &keys[0], &IdpfInput::from_bools(p), &ctx, &nonce, caches[0].as_mut())
+                idpf.eval(*id, &public, &keys[0], &input_at(p, offsets[k]), &ctx, &nonce, caches[0].as_mut())
             };
             res.push(match r {
                 Ok(IdpfOutputShare::Inner(v)) => format!("I:{}", hex(&enc(&v))),
@@ -189,10 +206,85 @@ pub fn run(out: &mut Out, thorough: bool, seed: u64) {
             scenario(out, &mut rng, bits, true);
         }
     }
+    for bits in 1..=(if thorough { 5 } else { 4 }) {
+        for _ in 0..(if thorough { 4 } else { 2 }) {
+            scenario_plain(out, &mut rng, bits);
+        }
+    }
     for bits in [8usize, 12, 33, 64] {
         for _ in 0..(if thorough { 12 } else { 2 }) {
             scenario(out, &mut rng, bits, false);
         }
     }
     out.samples = out.ops.iter().step_by(out.ops.len() / 6 + 1).map(|s| s.chars().take(400).collect()).collect();
+}
+
+/// the same IDPF over plain field elements (`Idpf<Field64, Field128>`, the blanket `IdpfValue`
+/// implementation): shares reconstruct the point function; correspondence through `idpf1`
+fn scenario_plain(out: &mut Out, rng: &mut Sm, bits: usize) {
+    use prio::field::Field128;
+    let idpf: Idpf<Field64, Field128> = Idpf::new((), ());
+    let alpha: Vec<bool> = (0..bits).map(|_| rng.below(2) == 1).collect();
+    let inner: Vec<Field64> = (0..bits - 1).map(|_| rand_f64(rng)).collect();
+    let leaf = Field128::from(rng.u128() % 340282366920938462946865773367900766209);
+    let ctx = rng.bytes(3);
+    let nonce = rng.bytes(16);
+    idpf_prg_log(true);
+    let (public, keys) = idpf.gen(&IdpfInput::from_bools(&alpha), inner.clone(), leaf, &ctx, &nonce).unwrap();
+    let mut evals: Vec<(usize, Vec<bool>)> = vec![];
+    for len in 1..=bits {
+        for v in 0..(1u32 << len) {
+            let p: Vec<bool> = (0..len).map(|i| (v >> (len - 1 - i)) & 1 == 1).collect();
+            evals.push((0, p.clone()));
+            evals.push((1, p));
+        }
+    }
+    for i in (1..evals.len()).rev() {
+        evals.swap(i, rng.below(i as u64 + 1) as usize);
+    }
+    let mut caches: [Box<dyn IdpfCache>; 2] = [Box::new(RingBufferCache::new(3)), Box::new(RingBufferCache::new(3))];
+    let mut res = vec![];
+    let mut by_prefix: std::collections::HashMap<Vec<bool>, [Option<Vec<u8>>; 2]> = Default::default();
+    for (id, p) in &evals {
+        let r = idpf.eval(*id, &public, &keys[*id], &IdpfInput::from_bools(p), &ctx, &nonce, caches[*id].as_mut());
+        res.push(match &r {
+            Ok(IdpfOutputShare::Inner(v)) => format!("I:{}", hex(&enc(v))),
+            Ok(IdpfOutputShare::Leaf(v)) => format!("L:{}", hex(&enc(v))),
+            Err(_) => "err".into(),
+        });
+        if let Ok(o) = r {
+            by_prefix.entry(p.clone()).or_default()[*id] = Some(match o {
+                IdpfOutputShare::Inner(v) => enc(&v),
+                IdpfOutputShare::Leaf(v) => enc(&v),
+            });
+        }
+    }
+    let log = idpf_prg_log(false);
+    for (p, pair) in by_prefix {
+        if let [Some(a), Some(b)] = pair {
+            let on_path = p[..] == alpha[..p.len()];
+            let ok = if p.len() == bits {
+                let s = Field128::try_from(a.as_slice()).unwrap() + Field128::try_from(b.as_slice()).unwrap();
+                s == if on_path { leaf } else { Field128::zero() }
+            } else {
+                let s = Field64::try_from(a.as_slice()).unwrap() + Field64::try_from(b.as_slice()).unwrap();
+                s == if on_path { inner[p.len() - 1] } else { Field64::zero() }
+            };
+            out.oracle(ok, || format!("idpf over plain field elements bits={} alpha={} prefix={}", bits, bits_str(&alpha), bits_str(&p)), || "shares do not add up to the programmed point function".into());
+        }
+    }
+    let mut table: Vec<String> = vec![];
+    let mut seen = std::collections::HashSet::new();
+    for (kind, leaf_mode, seed, o) in &log {
+        if seen.insert((*kind, *leaf_mode, *seed)) {
+            table.push(format!("{}{}:{}:{}", kind, *leaf_mode as u8, hex(seed), hex(o)));
+        }
+    }
+    let inner_hex = hex(&inner.iter().flat_map(|v| enc(v)).collect::<Vec<u8>>());
+    let evs = evals.iter().map(|(id, p)| format!("{}:{}", id, bits_str(p))).collect::<Vec<_>>().join(";");
+    out.case(
+        format!("idpf1 {} {} {} {} {} ring:3 {} {}", bits_str(&alpha), hex(keys[0].as_ref()), hex(keys[1].as_ref()), inner_hex, hex(&enc(&leaf)), evs, if table.is_empty() { "none".into() } else { table.join(",") }),
+        format!("{} {}", hex(&enc(&public)), res.join(" ")),
+    );
+    out.count("idpf.plain-field");
 }
